@@ -341,6 +341,8 @@ def run(tier, rep):
         if drop:
             sl = [j for k, j in enumerate(sl) if k not in drop]
             traces = [t for k, t in enumerate(traces) if k not in drop]
+        if not traces:          # everything in this slice was skipped after a confirmed hang in an earlier one
+            continue
         verdicts, st = C.validate_traces("ProgressTrace", traces, shard=40000)
         for kk in acc:
             acc[kk] += st[kk]
